@@ -414,6 +414,18 @@ func c04Gen(r *Rng, tier string, i int) Sx {
 	if na && r.Chance(1, 3) {
 		insertAt(LS(append([]Sx{A("nal")}, g.mwsFallback(405)...)))
 	}
+	if r.Chance(1, 8) { // HandleFallbackRoute: a "/*" route (for some or all methods, with middleware) takes what nothing else matches
+		opts = append(opts, L(A("fb")))
+		g.nextRt++
+		id := 100 + g.nextRt
+		g.hs = append(g.hs, L(I(id), L(ev(id*10))))
+		ms := append([]string{}, rtMethods...)
+		if r.Bool() {
+			ms = []string{"GET", "HEAD"}
+		}
+		insertAt(L(A("route"), SL(ms), S("/*"), I(id), LS(g.mws(2)), L(), S("")))
+		g.reqs = append(g.reqs, L(S("GET"), S("/zz/unmatched/deep"), L()), L(S("DELETE"), S("/zz/unmatched"), L()))
+	}
 	// 404 and 405 probes
 	g.reqs = append(g.reqs, L(S("GET"), S("/zz/none"), L()))
 	if r.Chance(1, 3) { // paths nobody expects (control characters, as a decoded %09 / %00 / %7F gives them): global middleware still runs
